@@ -2178,3 +2178,14 @@ func specIsEnvStringer(x any) bool { _, ok := x.(native.EnvStringer); return ok 
 //@   panics allowed
 //@   loop 0
 //@     invariant[C12] forall(i+1, last+1, func(j int) bool { return vm.calls[j].status == deferred })
+
+// OpAssert (C12): a failed type assertion without comma-ok panics on behalf of
+// the Panic instruction that follows it, which carries the position; the
+// program counter is moved past that instruction first, so that the instruction
+// before vm.pc - the one newPanic and convertPanic read - is the one with the
+// position.
+//@ clause (*VM).run/case OpAssert
+//@   props X00 C12
+//@   opt stable VM Function
+//@   panics allowed
+//@   callassert[C12] errTypeAssertion 0 vm.pc == old(vm.pc)+1
